@@ -137,11 +137,20 @@ def verify_contract(args):
             fail = {"obligation": ob.name, "kind": ob.kind, "solver": status, "info": ob.info, "line": ob.line,
                     "replayed": False, "inputs": None, "native_failed": None,
                     "was_discharged_in_lock": lock.get(ob.name) == "discharged"}
-            if status == "sat" and model is not None and c.native:
+            if status == "sat" and model is not None and (c.native or c.extract):
                 try:
                     argmap = {k: to_python(v, model) for k, v in ob.inputs.items() if k in c.args}
                     fail["inputs"] = repr(argmap)
-                    o = native.check_native(c, native.to_real(argmap))
+                    if c.native:
+                        o = native.check_native(c, native.to_real(argmap))
+                    else:
+                        # an extracted contract: the counterexample is replayed on the extracted text of the real function
+                        native.NS_RECORDS[0] = True
+                        try:
+                            o = native.check_native(c, native.to_real(argmap), fn=native.extracted_callable(c))
+                        finally:
+                            native.NS_RECORDS[0] = False
+                        fail["from"] = "solver model replayed on the extracted function text"
                     fail["model_pre_ok"] = bool(o.pre_ok)
                     if o.violates:
                         fail["replayed"] = True
@@ -300,7 +309,7 @@ def check_property(pid, tier, seed, jobs=None, only=None):
             results.append(_call(fn, a))
     else:
         ctx = mp.get_context("fork")
-        with ctx.Pool(jobs) as pool:
+        with ctx.Pool(jobs, maxtasksperchild=1) as pool:  # a fresh fork per task: the solver state no longer depends on scheduling
             asyncs = [pool.apply_async(_call, (fn, a)) for fn, a in tasks]
             for (fn, a), r in zip(tasks, asyncs):
                 try:
@@ -648,9 +657,16 @@ def replay(path):
         c = api.REG[d["function"]]
         if d.get("gen_replay"):
             argmap = native.regenerate(c, d["gen_replay"]["seed"], d["gen_replay"]["index"])
+            o = native.check_native(c, argmap)
+        elif c.extract and not c.native:
+            # replay on the mechanically extracted text of the real function (what the violated obligation was generated from)
+            native.NS_RECORDS[0] = True
+            argmap = native.to_real(ast.literal_eval(d["inputs"]))
+            o = native.check_native(c, argmap, fn=native.extracted_callable(c))
+            print("(replayed on the extracted function text)")
         else:
             argmap = native.to_real(ast.literal_eval(d["inputs"]))
-        o = native.check_native(c, argmap)
+            o = native.check_native(c, argmap)
         print("inputs:", argmap)
         print("precondition holds:", o.pre_ok, "| raised:", repr(o.raised), "| result:", repr(o.result)[:300])
         print("violated clauses:", o.failed)
